@@ -140,6 +140,7 @@ async fn main() {
         "root_check" => rootcli::op_root_check(sc),
         "cache_roundtrip" => cache::op_cache_roundtrip(sc).await,
         "editor_roundtrip" => roundtrip::op_editor_roundtrip(sc).await,
+        "cross_party" => update::op_cross_party(sc).await,
         "editor_program" => update::op_editor_program(sc).await,
         "update_preserves" => update::op_update_preserves(sc).await,
         "delegated_paths" => delegs::op_delegated_paths(sc).await,
